@@ -78,6 +78,7 @@ Print Assumptions C01_ineligible_deleted.
     is a listed pod whose phase is not Unknown. *)
 Theorem C01_unknown_phase_untouched : forall sn ch pl pn,
   ers_sync sn ch = Ok pl -> In pn (pl_deletes pl ++ pl_cleanup pl) ->
-  exists p, In p (sn_pods sn) /\ p_name p = pn /\ p_phase p <> PhUnknown.
+  exists p, In p (sn_pods sn) /\ p_name p = pn /\ p_phase p <> PhUnknown /\
+            (forall e, sn_eds sn = Some e -> own_pod e p).
 Proof. exact deleted_pods_are_listed_not_unknown. Qed.
 Print Assumptions C01_unknown_phase_untouched.
